@@ -5,13 +5,13 @@ LEVEL = "model_checking"
 HARNESS = ["c19_paths.cpp"]
 MODULE = "c19"
 BOUNDS = {
-    "quick": {"paths": "strings of concrete length with symbolic bytes (NUL excluded): fully symbolic n<=4 (SSE also n=5); s1+'\\\\textures\\\\'+s2, s1+'textures'+s2 with |s1|,|s2|<=2; 'data\\\\'+s and 'Textures\\\\'+s with |s|<=3", "versions": "OB, FO3, SK, SSE, FO4", "terrain": "both", "slots": "texture set slot and effect shader source texture"},
-    "thorough": {"paths": "fully symbolic n<=6; keyword families with |s1|,|s2|<=3", "versions": "all six", "terrain": "both", "slots": "both"},
+    "quick": {"paths": "strings of concrete length with symbolic bytes (NUL excluded): fully symbolic n<=4 (SSE also n=5); s1+'\\\\textures\\\\'+s2, s1+'textures'+s2 with |s1|,|s2|<=2; 'data\\\\'+s and 'Textures\\\\'+s with |s|<=3", "versions": "OB, FO3, SK, SSE, FO4", "terrain": "both", "slots": "texture set slots 0/1, the five effect shader texture paths, NiSourceTexture behind NiTexturingProperty (OB/FO3); all other paths of the owner hold canonical paths and must not change"},
+    "thorough": {"paths": "fully symbolic n<=6; keyword families with |s1|,|s2|<=3", "versions": "all six", "terrain": "both", "slots": "as quick, longer strings"},
 }
 ASSUMPTIONS = [
     "std::regex (libstdc++) is replaced by nifsym/regexsym.py, a forking backtracking matcher for the ECMAScript subset of the five patterns (leftmost, priority-ordered, '.' excludes \\n and \\r, icase folds ASCII, '^' only at the start of the subject); std::filesystem::path::is_relative is modelled as 'does not start with /'. The claim is modulo this model; the model is differentially tested against the real libstdc++ build on seeded strings on every run (evidence: regex_model_differential)",
     "paths longer than the stated lengths, and NUL bytes inside paths, are outside the claim; 'never loops for paths of a few kilobytes' is not claimed",
-    "OB NiSourceTexture slots (NiTexturingProperty) are not built by the harness",
+    "of NiTexturingProperty only the base texture slot is built by the harness",
 ]
 LEVEL_TEXT = ("Bounded symbolic model checking of NifFile::TrimTexturePaths (trim_whitespace, five regexes, is_relative_path) on the real "
               "code with symbolic path characters: canonical-form predicates (no surrounding whitespace, no '/', no double backslash, nothing "
@@ -49,6 +49,13 @@ def jobs(tier, seed):
         for n in range(0, 4):
             J.append(dict(entry="h_paths", args=[ver, 0, 0, n, 0, 1], budget=bud, throw_is_violation=True))
         J.append(dict(entry="h_paths", args=[ver, 0, 1, 1, 1, 1], budget=bud, throw_is_violation=True))
+        for slot in (2, 3, 4, 5, 7):
+            for n in ((1, 2) if q else (0, 1, 2, 3)):
+                J.append(dict(entry="h_paths", args=[ver, 0, 0, n, 0, slot], budget=bud, throw_is_violation=True))
+    for ver in (OB, FO3):
+        for n in range(0, 4):
+            J.append(dict(entry="h_paths", args=[ver, 0, 0, n, 0, 6], budget=bud, throw_is_violation=True))
+        J.append(dict(entry="h_paths", args=[ver, 0, 1, 1, 1, 6], budget=bud, throw_is_violation=True))
     return J
 
 
